@@ -498,5 +498,86 @@ func CheckC17(e *Env) int {
 	e.ParallelDo(len(jobs), func(i int) {
 		runCLI(e, rep, rc, jobs[i].s, jobs[i].cmd, &mu)
 	})
+	runBadPatterns(e, rep, &mu)
 	return rep.Finish(t0)
+}
+
+// runBadPatterns: patterns that name no loadable package (a directory that does not exist, a
+// package whose only file is excluded by a build constraint), alone and next to a good package:
+// every command must fail (diff with status 2) and leave the tree alone; gen may at most write
+// the good package's output.
+func runBadPatterns(e *Env, rep *Report, mu *sync.Mutex) {
+	type bp struct {
+		kind, cmd string
+		withGood  bool
+	}
+	var cases []bp
+	for _, kind := range []string{"missing-directory", "all-files-excluded"} {
+		for _, cmd := range []string{"gen", "diff", "check", "show"} {
+			for _, wg := range []bool{false, true} {
+				cases = append(cases, bp{kind, cmd, wg})
+			}
+		}
+	}
+	e.ParallelDo(len(cases), func(i int) {
+		c := cases[i]
+		id := fmt.Sprintf("bp%02d", i)
+		root := filepath.Join(e.Scratch, "cli", id)
+		os.MkdirAll(root, 0o755)
+		defer os.RemoveAll(root)
+		good := cliS(0)
+		if err := prepareModule(e, root, []*Program{good}); err != nil {
+			mu.Lock()
+			rep.Incon = append(rep.Incon, id+": "+err.Error())
+			mu.Unlock()
+			return
+		}
+		bad := "./nosuch"
+		if c.kind == "all-files-excluded" {
+			os.MkdirAll(filepath.Join(root, "excluded"), 0o755)
+			os.WriteFile(filepath.Join(root, "excluded", "x.go"), []byte("//go:build neverset_tag\n// +build neverset_tag\n\npackage excluded\n"), 0o644)
+			bad = "./excluded"
+		}
+		args := []string{c.cmd}
+		if c.withGood {
+			args = append(args, "./"+good.ID+"/app")
+		}
+		args = append(args, bad)
+		before := TakeSnapshot(root)
+		res := e.Wire(root, nil, args...)
+		changed := before.Diff(TakeSnapshot(root))
+		obs := fmt.Sprintf("wire %v\nexit=%d changed=%v\nstderr:\n%s", args, res.Exit, changed, tail(res.Stderr, 1200))
+		fail := func(clause string) {
+			mu.Lock()
+			defer mu.Unlock()
+			rep.Violate(id, Issue{Prop: "C17", Clause: clause, Witness: obs, Sig: "C17:bad-pattern:" + c.cmd + ":" + c.kind}, good.Files(false), map[string]string{"scenario.txt": fmt.Sprintf("%+v", c)})
+		}
+		switch {
+		case res.TimedOut:
+			mu.Lock()
+			rep.Incon = append(rep.Incon, id+": watchdog")
+			mu.Unlock()
+			return
+		case res.Crashed():
+			fail("crash")
+			return
+		case c.cmd == "diff" && res.Exit != 2:
+			fail(fmt.Sprintf("diff over a pattern that names no loadable package exits %d, want 2", res.Exit))
+			return
+		case res.Exit == 0:
+			fail(c.cmd + " over a pattern that names no loadable package exits 0")
+			return
+		}
+		for _, ch := range changed {
+			if c.cmd == "gen" && c.withGood && ch[1:] == filepath.Join(good.ID, "app", "wire_gen.go") {
+				continue
+			}
+			fail(c.cmd + " with an unloadable pattern touched " + ch)
+			return
+		}
+		mu.Lock()
+		rep.Held(fmt.Sprintf("bad-pattern;%s;%s;with-good=%v", c.cmd, c.kind, c.withGood))
+		rep.Count("invocations_bad_pattern", 1)
+		mu.Unlock()
+	})
 }
